@@ -81,7 +81,8 @@ fn wire(len: usize) -> [u8; MAXLEN + 1] {
     buf
 }
 
-fn text_case(len: usize) {
+/// One decode of a wire string of `len` arbitrary bytes; returns (accepted, wire bytes).
+fn text_case(len: usize) -> (bool, [u8; MAXLEN + 1]) {
     let buf = wire(len);
     let body = &buf[1..1 + len];
     let r: Result<Text, postcard::Error> = postcard::from_bytes(&buf[..1 + len]);
@@ -89,14 +90,12 @@ fn text_case(len: usize) {
         Ok(t) => {
             assert!(same(t.as_str().as_bytes(), body));
             assert!(no_nul(t.as_str().as_bytes()));
-            kani::cover!(len >= 2, "decoded 2+ bytes");
-            kani::cover!((len >= 2) & (buf[1] >= 0xc2), "decoded a multi-byte char");
+            (true, buf)
         }
         Err(_) => {
             // rejected: a NUL, or not ASCII (possibly ill-formed UTF-8)
             assert!(!no_nul(body) | !ascii(body));
-            kani::cover!((len >= 2) & ascii(body), "ASCII with NUL rejected");
-            kani::cover!((len >= 1) & (buf[1] == 0x80), "ill-formed UTF-8 rejected");
+            (false, buf)
         }
     }
 }
@@ -105,19 +104,38 @@ fn text_case(len: usize) {
 #[kani::proof]
 #[kani::unwind(6)]
 fn c32_postcard_text_decode_len2() {
-    text_case(2);
+    let (ok, b) = text_case(2);
+    kani::cover!(ok & (b[1] >= 0xc2), "2-byte char decoded");
+    kani::cover!(ok & (b[1] == b'h') & (b[2] == b'i'), "ASCII decoded");
+    kani::cover!(!ok & (b[1] == b'h') & (b[2] == 0), "ASCII with NUL rejected");
+    kani::cover!(!ok & (b[1] == 0x80), "ill-formed UTF-8 rejected");
 }
 
-/// postcard -> Text for every wire string of 0, 1 and 3 arbitrary bytes.
+/// postcard -> Text for every wire string of 0 and 1 arbitrary bytes.
 #[kani::proof]
 #[kani::unwind(6)]
-fn c32_postcard_text_decode_len013() {
-    text_case(0);
-    text_case(1);
-    text_case(3);
+fn c32_postcard_text_decode_len01() {
+    let (ok0, _) = text_case(0);
+    assert!(ok0);
+    let (ok, b) = text_case(1);
+    kani::cover!(ok & (b[1] == b'x'), "1 byte decoded");
+    kani::cover!(!ok & (b[1] == 0), "single NUL rejected");
+    kani::cover!(!ok & (b[1] == 0xff), "ill-formed UTF-8 rejected");
 }
 
-fn ident_case(len: usize) {
+/// postcard -> Text for every wire string of exactly 3 arbitrary bytes.
+#[kani::proof]
+#[kani::unwind(6)]
+fn c32_postcard_text_decode_len3() {
+    let (ok, b) = text_case(3);
+    kani::cover!(ok & (b[1] >= 0xe0), "3-byte char decoded");
+    kani::cover!(
+        !ok & (b[1] == b'a') & (b[2] == b'b') & (b[3] == 0),
+        "NUL last rejected"
+    );
+}
+
+fn ident_case(len: usize) -> (bool, [u8; MAXLEN + 1]) {
     let buf = wire(len);
     let body = &buf[1..1 + len];
     let r: Result<Identifier, postcard::Error> = postcard::from_bytes(&buf[..1 + len]);
@@ -126,16 +144,11 @@ fn ident_case(len: usize) {
             assert!(ident(body));
             assert!(same(id.as_str().as_bytes(), body));
             assert!(ident(id.as_str().as_bytes()));
-            kani::cover!(len >= 2, "decoded 2+ bytes");
+            (true, buf)
         }
         Err(_) => {
             assert!(!ident(body));
-            kani::cover!((len >= 2) & (buf[1] == b'a') & (buf[2] == 0), "NUL tail rejected");
-            kani::cover!(
-                (len >= 2) & (buf[1] >= 0xc2) & (buf[2] >= 0x80) & (buf[2] < 0xc0),
-                "non-ASCII rejected"
-            );
-            kani::cover!((len >= 1) & (buf[1] == b'_'), "leading underscore rejected");
+            (false, buf)
         }
     }
 }
@@ -145,39 +158,64 @@ fn ident_case(len: usize) {
 #[kani::proof]
 #[kani::unwind(6)]
 fn c32_postcard_ident_decode_len2() {
-    ident_case(2);
+    let (ok, b) = ident_case(2);
+    kani::cover!(ok & (b[2] == b'_'), "identifier decoded");
+    kani::cover!(!ok & (b[1] == b'a') & (b[2] == 0), "NUL tail rejected");
+    kani::cover!(
+        !ok & (b[1] >= 0xc2) & (b[2] >= 0x80) & (b[2] < 0xc0),
+        "non-ASCII rejected"
+    );
+    kani::cover!(!ok & (b[1] == b'_'), "leading underscore rejected");
 }
 
-/// postcard -> Identifier for every wire string of 0, 1 and 3 arbitrary bytes.
+/// postcard -> Identifier for every wire string of 0 and 1 arbitrary bytes.
 #[kani::proof]
 #[kani::unwind(6)]
-fn c32_postcard_ident_decode_len013() {
-    ident_case(0);
-    ident_case(1);
-    ident_case(3);
+fn c32_postcard_ident_decode_len01() {
+    let (ok0, _) = ident_case(0);
+    assert!(!ok0);
+    let (ok, b) = ident_case(1);
+    kani::cover!(ok & (b[1] == b'Q'), "1-byte identifier decoded");
+    kani::cover!(!ok & (b[1] == b'5'), "digit rejected");
+}
+
+/// postcard -> Identifier for every wire string of exactly 3 arbitrary bytes.
+#[kani::proof]
+#[kani::unwind(6)]
+fn c32_postcard_ident_decode_len3() {
+    let (ok, b) = ident_case(3);
+    kani::cover!(ok & (b[2] == b'9') & (b[3] == b'_'), "identifier decoded");
+    kani::cover!(!ok & (b[1] == b'a') & (b[3] == b'-'), "bad tail rejected");
 }
 
 /// What `Serialize` writes for a valid Text / Identifier is accepted by `Deserialize`
 /// and gives an equal value (ASCII content of 2 bytes).
-fn roundtrip_case(len: usize) {
-    let mut raw = [0u8; MAXLEN];
+fn ascii2() -> [u8; 2] {
+    let mut raw = [0u8; 2];
     let mut i = 0;
-    while i < MAXLEN {
+    while i < 2 {
         let b: u8 = kani::any();
         kani::assume(b < 0x80);
         raw[i] = b;
         i += 1;
     }
+    raw
+}
+
+#[kani::proof]
+#[kani::unwind(6)]
+fn c32_postcard_text_roundtrip() {
+    let raw = ascii2();
     // SAFETY: ASCII assumed above.
-    let s = unsafe { core::str::from_utf8_unchecked(&raw[..len]) };
+    let s = unsafe { core::str::from_utf8_unchecked(&raw[..]) };
     if let Ok(t) = Text::from_str(s) {
-        let mut out = [0u8; MAXLEN + 2];
+        let mut out = [0u8; 4];
         let n = match postcard::to_slice(&t, &mut out) {
             Ok(used) => used.len(),
             Err(_) => panic!("serialize failed"),
         };
-        assert!(n == len + 1);
-        assert!(out[0] as usize == len);
+        assert!(n == 3);
+        assert!((out[0] == 2) & (out[1] == raw[0]) & (out[2] == raw[1]));
         let back: Result<Text, postcard::Error> = postcard::from_bytes(&out[..n]);
         match back {
             Ok(b) => {
@@ -185,14 +223,24 @@ fn roundtrip_case(len: usize) {
             }
             Err(_) => panic!("Text did not survive postcard"),
         }
-        kani::cover!(len == 2, "text round trip");
+        kani::cover!(raw[1] == b' ', "text round trip");
     }
+}
+
+#[kani::proof]
+#[kani::unwind(6)]
+fn c32_postcard_ident_roundtrip() {
+    let raw = ascii2();
+    // SAFETY: ASCII assumed above.
+    let s = unsafe { core::str::from_utf8_unchecked(&raw[..]) };
     if let Ok(id) = Identifier::from_str(s) {
-        let mut out = [0u8; MAXLEN + 2];
+        let mut out = [0u8; 4];
         let n = match postcard::to_slice(&id, &mut out) {
             Ok(used) => used.len(),
             Err(_) => panic!("serialize failed"),
         };
+        assert!(n == 3);
+        assert!((out[0] == 2) & (out[1] == raw[0]) & (out[2] == raw[1]));
         let back: Result<Identifier, postcard::Error> = postcard::from_bytes(&out[..n]);
         match back {
             Ok(b) => {
@@ -200,12 +248,6 @@ fn roundtrip_case(len: usize) {
             }
             Err(_) => panic!("Identifier did not survive postcard"),
         }
-        kani::cover!(len == 2, "identifier round trip");
+        kani::cover!(raw[1] == b'_', "identifier round trip");
     }
-}
-
-#[kani::proof]
-#[kani::unwind(6)]
-fn c32_postcard_roundtrip() {
-    roundtrip_case(2);
 }
